@@ -58,7 +58,7 @@ class Spec(object):
 
 def gen_spec(rng, nstates=None, max_depth=8, nsignals=None, shape=None, p_init=0.45,
              p_react=0.5, clauses='mixed', fx_rate=0.0, fx_ops=('post_fifo', 'post_lifo'),
-             decline_bias=0.2, deep=False):
+             decline_bias=0.2, deep=False, tricky_names=0.3, p_vars=0.4, p_query=0.2, name_style=None):
   """draw a chart spec.  All randomness comes from rng."""
   if nstates is None:
     nstates = rng.randrange(2, 15)
@@ -67,6 +67,13 @@ def gen_spec(rng, nstates=None, max_depth=8, nsignals=None, shape=None, p_init=0
   if shape is None:
     shape = rng.choice(['chain', 'bushy', 'random'])
   signals = ['S%s' % chr(ord('A') + i) for i in range(nsignals)]
+  if tricky_names and rng.random() < tricky_names:
+    # user signals whose names resemble the built-in ones (they are ordinary user signals)
+    pool = ['BUTTON_SIGNAL', 'ENTRY', 'EXIT_SIGNALS', 'MY_INIT_SIGNAL', 'entry_signal', 'SIGNAL', 'STOP_SIGNAL',
+            'REFLECTION', 'EMPTY', 'SUPER_SIGNAL', 'A_SIGNAL_B', 'SEARCH_FOR_SUPER', 'top', 'HOOK']
+    rng.shuffle(pool)
+    for i in range(min(len(signals), rng.randrange(1, 4))):
+      signals[i] = pool[i]
   names = ['q%d' % (i + 1) for i in range(nstates)]
   states = []
   depth = {}
@@ -112,6 +119,21 @@ def gen_spec(rng, nstates=None, max_depth=8, nsignals=None, shape=None, p_init=0
       out.append(f)
     return out
 
+  # extended state: boolean variables read by guards and written by actions
+  vars_ = ['g%d' % i for i in range(rng.randrange(1, 3))] if rng.random() < p_vars else []
+
+  def plain_fx(hook):
+    """side effects that need no queue: writing extended state, querying the chart from a handler"""
+    out = []
+    if vars_ and rng.random() < 0.5:
+      fx_id[0] += 1
+      out.append({'op': 'setvar', 'var': rng.choice(vars_), 'value': rng.random() < 0.6, 'id': fx_id[0], 'max': 1000})
+    if hook and rng.random() < p_query:
+      fx_id[0] += 1
+      out.append({'op': 'query', 'q': rng.choice(['is_in', 'child', 'current_state']), 'arg': rng.choice(names + ['top']),
+                  'id': fx_id[0], 'max': 1000})
+    return out
+
   for s in states:
     n = s['name']
     desc = sp.descendants(n)
@@ -137,10 +159,24 @@ def gen_spec(rng, nstates=None, max_depth=8, nsignals=None, shape=None, p_init=0
         if r < decline_bias:
           s['react'][sig] = {'kind': 'decline'}
         elif r < decline_bias + 0.25:
-          s['react'][sig] = {'kind': 'hook', 'fx': draw_fx()}
+          s['react'][sig] = {'kind': 'hook', 'fx': draw_fx() + plain_fx(True)}
         else:
-          s['react'][sig] = {'kind': 'trans', 'target': rng.choice(names), 'fx': draw_fx()}
-  return {'signals': signals, 'states': states}
+          s['react'][sig] = {'kind': 'trans', 'target': rng.choice(names), 'fx': draw_fx() + plain_fx(False)}
+        if vars_ and rng.random() < 0.3:
+          # a guard that reads extended state: the same (state, signal) can decline now and react later
+          s['react'][sig] = {'kind': 'guard', 'var': rng.choice(vars_), 'then': s['react'][sig] if s['react'][sig]['kind'] != 'decline'
+                             else {'kind': 'hook', 'fx': plain_fx(True)}}
+  if name_style is None:
+    name_style = rng.choices(['unique', 'dups', 'anon'], weights=[16, 3, 1])[0]
+  if name_style == 'dups' and len(states) >= 3:
+    # distinct state functions that share a __name__ (two sub-machines each with an "idle" state)
+    k = rng.randrange(2, min(4, len(states)) + 1)
+    for st in rng.sample(states, k):
+      st['fn_name'] = 'idle'
+  elif name_style == 'anon':
+    for st in states:
+      st['fn_name'] = 'handler'
+  return {'signals': signals, 'states': states, 'vars': vars_}
 
 
 def topology_class(sp, cur, S, T):
@@ -176,6 +212,7 @@ class Build(object):
     self.raw = {}        # state name -> undecorated function (closure build)
     self.kind = None
     self.code_text = {}
+    self.vars = {}       # extended state shared with the run (read by guards)
 
   def fn(self, name):
     return self.h[name]
@@ -230,9 +267,17 @@ def build_closure(spec, rec, spied=True, effects=None, malform=None):
       elif sn in react:
         r = react[sn]
         k = r['kind']
+        if k == 'guard':
+          if b.vars.get(r['var']):
+            r = r['then']
+            k = r['kind']
+          else:
+            rec('decline', name, sn, None)
+            return rs.UNHANDLED
         if k == 'hook':
           rec('hook', name, sn, None)
           b._fx(chart, e, r.get('fx'))
+          rec('hook_end', name, sn, None)
           return rs.HANDLED
         elif k == 'decline':
           rec('decline', name, sn, None)
@@ -244,8 +289,8 @@ def build_closure(spec, rec, spied=True, effects=None, malform=None):
       chart.temp.fun = b.h[parent] if parent is not None else chart.top
       return rs.SUPER
 
-    handler.__name__ = name
-    handler.__qualname__ = name
+    handler.__name__ = st.get('fn_name', name)
+    handler.__qualname__ = handler.__name__
     return handler
 
   for st in sp.d['states']:
@@ -285,7 +330,21 @@ def _callbacks(b, chart_ns):
     else:
       r = st['react'][sn]
       k = r['kind']
-      if k == 'hook':
+      if k == 'guard':
+        inner = r['then']
+
+        def cb(chart, e):
+          if not b.vars.get(r['var']):
+            b.rec('decline', name, e.signal_name, None)
+            return rs.UNHANDLED
+          if inner['kind'] == 'hook':
+            b.rec('hook', name, e.signal_name, None)
+            b._fx(chart, e, inner.get('fx'))
+            return rs.HANDLED
+          b.rec('trans', name, e.signal_name, inner['target'])
+          b._fx(chart, e, inner.get('fx'))
+          return chart.trans(chart_ns[inner['target']])
+      elif k == 'hook':
         def cb(chart, e):
           b.rec('hook', name, e.signal_name, None)
           b._fx(chart, e, r.get('fx'))
@@ -303,6 +362,7 @@ def _callbacks(b, chart_ns):
     cb.__qualname__ = cb.__name__
     return cb
 
+  b.make_cb = lambda st, sn: mk(st, sn, 'react')      # for registrations made later on
   for st in sp.d['states']:
     if st['entry_clause']:
       cbs[(st['name'], 'ENTRY_SIGNAL')] = mk(st, 'ENTRY_SIGNAL', 'entry')
